@@ -3,6 +3,8 @@
 usage: benigneval.py <dir with <id>/patch.diff meta.json> [--all]
 For each patch: apply to /repo, run every check whose evidence lists a touched source file (or all with --all), revert.
 A check must exit 0: exit 1 is a false alarm, exit 2 brittleness (undecided on unchanged behaviour)."""
+import os as _os
+_os.environ.setdefault('PYVC_EVIDENCE_DIR', '/tmp/pyvc_evidence_scratch')
 import glob, json, os, subprocess, sys, time
 src = sys.argv[1]
 run_all = "--all" in sys.argv
